@@ -69,6 +69,12 @@ def rule_P1(ck):
                 continue   # string formatting
             if _const_nonzero(node.right):
                 continue
+            if isinstance(node.right, ast.Name):
+                # a local name for such an expression (modulus = 2 ** bitness), bound exactly once
+                binds = [a_ for a_ in ast.walk(fn) if isinstance(a_, (ast.Assign, ast.AugAssign, ast.AnnAssign, ast.For, ast.comprehension, ast.NamedExpr, ast.arg))
+                         and ((isinstance(a_, ast.arg) and a_.arg == node.right.id) or any(isinstance(m_, ast.Name) and m_.id == node.right.id and isinstance(m_.ctx, ast.Store) for m_ in ast.walk(a_) if not isinstance(a_, ast.arg)))]
+                if len(binds) == 1 and isinstance(binds[0], ast.Assign) and len(binds[0].targets) == 1 and isinstance(binds[0].targets[0], ast.Name) and _const_nonzero(binds[0].value):
+                    continue
             n += 1
             div = norm_text(node.right)
             ck.instance(("div", q, norm_text(node)), {"site": q, "expression": norm_text(node)[:80]}, fn=q)
@@ -164,6 +170,23 @@ def rule_P10(ck):
         ck.unknown(f"only {n} open() sites found (3 confirmed by hand)")
 
 
+def _loops_over_constant_range(fn, name):
+    """every binding of `name` in fn is the target of a for / comprehension over range(<integer constants>)"""
+    bind = []
+    for n_ in ast.walk(fn):
+        if isinstance(n_, (ast.For, ast.comprehension)) and any(isinstance(t, ast.Name) and t.id == name for t in ast.walk(n_.target)):
+            it = n_.iter
+            ok = isinstance(it, ast.Call) and isinstance(it.func, ast.Name) and it.func.id == "range" and it.args and all(isinstance(a, ast.Constant) and isinstance(a.value, int) for a in it.args)
+            bind.append(ok and isinstance(n_.target, ast.Name))
+        elif isinstance(n_, (ast.Assign, ast.AugAssign, ast.AnnAssign, ast.NamedExpr)):
+            tg = n_.targets if isinstance(n_, ast.Assign) else [n_.target]
+            if any(isinstance(t, ast.Name) and t.id == name for t_ in tg for t in ast.walk(t_)):
+                bind.append(False)
+        elif isinstance(n_, ast.arg) and n_.arg == name:
+            bind.append(False)
+    return bool(bind) and all(bind)
+
+
 def rule_P11(ck):
     """chr(n) with n from an operand: ValueError and OverflowError"""
     repo = ck.repo
@@ -174,6 +197,9 @@ def rule_P11(ck):
                 arg = norm_text(c.args[0])
                 # chr(int(two hex digits, 16)) is bounded by construction
                 if isinstance(c.args[0], ast.Call) and norm_text(c.args[0].func) == "int" and len(c.args[0].args) == 2:
+                    continue
+                # chr(i) where i runs over range(<constant>) (building a table at import time) is bounded by construction
+                if isinstance(c.args[0], ast.Name) and _loops_over_constant_range(fn, c.args[0].id):
                     continue
                 n += 1
                 ck.instance(("chr", q), {"site": q, "call": norm_text(c)}, fn=q)
